@@ -9,18 +9,21 @@ CONSTRUCTS = {
  'assert': "assert c; x", 'if': "if c then t else e", 'select': "a.b.c", 'select_or': "a.b or d", 'has_attr': "a ? b", 'not': "!x", 'neg': "-x",
  'binary': "a + b", 'chain': "a\n++ b\n++ c", 'update': "a // b", 'paren': "(x)", 'inherit': "{\n  inherit a b;\n}",
  'inherit_from': "{\n  inherit (p) a b;\n}", 'string': "\"s${x}t\"",
+ 'if_multi': "if c then\n  t\nelse\n  e", 'if_chain': "if c then\n  t\nelse if d then\n  u\nelse\n  e", 'with_multi': "with p;\nx", 'assert_multi': "assert c;\nx", 'lambda_nl': "x:\nx",
+ 'call_multi': "f\n  x\n  y", 'binary_multi': "a\n+ b", 'inherit_multi': "{\n  inherit\n    a\n    b\n    ;\n}",
 }
 KINDS = {
  'sp': ' ', 'sp2': '   ', 'tab': '\t', 'nl': '\n', 'nl_ind': '\n    ', 'blank': '\n\n', 'blank3': '\n\n\n  ',
  'eol_c': ' # c\n', 'own_c': '\n# c\n', 'own_c_blank': '\n\n# c\n\n', 'inl_b': ' /* c */ ', 'own_b': '\n/* c */\n',
  'ml_b': '\n/* a\n   b */\n', 'doc_b': '\n/** d */\n', 'hash_nospace': '\n#c\n',
  'eol_c_blank': ' # c\n\n', 'eol_b_blank': ' /* c */\n\n', 'own_c_two': '\n# c\n# d\n', 'blank_own_c': '\n\n# c\n', 'own_c_blank_after': '\n# c\n\n\n',
+ 'two_b': ' /* a */ /* b */ ', 'b_then_eol_c': ' /* a */ # b\n', 'two_own_b': '\n/* a */ /* b */\n',
  'tight_b': '/* c */', 'tight_eol_c': '# c\n', 'tight_b_sp': '/* c */ ',
 }
 WS_KINDS = {'sp', 'sp2', 'tab', 'nl', 'nl_ind', 'blank', 'blank3'}
 LINE_LEVEL = {'eol_c', 'own_c', 'own_c_blank', 'own_b', 'ml_b', 'doc_b', 'hash_nospace', 'eol_c_blank', 'eol_b_blank', 'own_c_two', 'blank_own_c', 'own_c_blank_after', 'tight_eol_c'}       # comment alone on a line or at the end of one
 CONTEXTS = {'lambda_body': lambda e: 'x:\n' + e, 'top': lambda e: e, 'bindval': lambda e: "{\n  v = " + e.replace("\n", "\n  ") + ";\n}", 'listitem': lambda e: "[\n  " + e.replace("\n", "\n  ") + "\n]"}
-NOT_LIST_ITEMS = ('call', 'with', 'assert', 'if', 'lambda_id', 'lambda_formals', 'lambda_formals_multi', 'lambda_at', 'lambda_at_pre', 'let', 'binary', 'chain', 'update', 'has_attr', 'not', 'neg', 'select_or', 'call_set')
+NOT_LIST_ITEMS = ('if_multi', 'if_chain', 'with_multi', 'assert_multi', 'lambda_nl', 'call_multi', 'binary_multi', 'call', 'with', 'assert', 'if', 'lambda_id', 'lambda_formals', 'lambda_formals_multi', 'lambda_at', 'lambda_at_pre', 'let', 'binary', 'chain', 'update', 'has_attr', 'not', 'neg', 'select_or', 'call_set')
 # ---- nesting family: every sequence of up to three wrappers around a leaf, each wrapper with names of its own depth ----
 WRAP = {
  'let': lambda i, e: 'let\n  v%d = %d;\nin\n%s' % (i, i, e), 'lam': lambda i, e: 'x%d: %s' % (i, e), 'formals': lambda i, e: '{ p%d }: %s' % (i, e),
